@@ -22,19 +22,20 @@ class AttrError(ValueError):
     pass
 
 
-def _mk_exc(kind, idx):
+def _mk_exc(kind, idx, opi=0):
+    """every exception carries the index of the operation that raised it, so that a stale one is recognisable"""
     if kind == 'ValueError':
-        return ValueError('boom', idx)
+        return ValueError('boom', idx, 'op%d' % opi)
     if kind == 'Custom':
-        return CustomError(idx, 'x', extra={'k': idx})
+        return CustomError(idx, 'x%d' % opi, extra={'k': idx})
     if kind == 'Attr':
         e = AttrError('attr', idx)
-        e.payload = [idx, 'p']
+        e.payload = [idx, 'p', opi]
         return e
     if kind == 'SystemExit':
-        return SystemExit(3)
+        return SystemExit(3, opi)
     if kind == 'KeyError':
-        return KeyError(idx)
+        return KeyError(idx, opi)
     raise AssertionError(kind)
 
 
@@ -136,7 +137,7 @@ def control_snapshot(pool):
 def run_scenario(sc):
     """Runs the scenario; returns observations (dict)."""
     seed = sc.get('seed', 0)
-    S = _install.install(seed, max_steps=sc.get('max_steps', 300000), max_virtual=sc.get('max_virtual', 400.0))
+    S = _install.install(seed, max_steps=sc.get('max_steps', 3000000), max_virtual=sc.get('max_virtual', 3000.0))
     obs = {'ops': [], 'stuck': None, 'thread_excs': [], 'harness_error': None}
     try:
         _run(sc, S, obs)
@@ -385,8 +386,8 @@ def _run(sc, S, obs):
             finally:
                 S.cur.in_user = 0
             if idx in fail.get('at', ()):  # raise in this task
-                e = _mk_exc(fail.get('exc', 'ValueError'), idx)
-                excs_raised.append(exc_info(e))
+                e = _mk_exc(fail.get('exc', 'ValueError'), idx, opi)
+                excs_raised.append(dict(exc_info(e), opi=opi))
                 raise e
             rec[7] = round(S.now - S.t0, 6)
             if numpy_in:
@@ -404,8 +405,8 @@ def _run(sc, S, obs):
             if d:
                 sim.time_shim.sleep(d)
             if fail.get('init') is not None and (fail['init'] == 'all' or fail['init'] == S.cur.role):
-                e = _mk_exc(fail.get('exc', 'ValueError'), -2)
-                excs_raised.append(exc_info(e))
+                e = _mk_exc(fail.get('exc', 'ValueError'), -2, now_op[0])
+                excs_raised.append(dict(exc_info(e), opi=now_op[0]))
                 raise e
             rec[7] = round(S.now - S.t0, 6)
 
@@ -420,8 +421,8 @@ def _run(sc, S, obs):
             if d:
                 sim.time_shim.sleep(d)
             if fail.get('exit') is not None and (fail['exit'] == 'all' or fail['exit'] == S.cur.role):
-                e = _mk_exc(fail.get('exc', 'ValueError'), -3)
-                excs_raised.append(exc_info(e))
+                e = _mk_exc(fail.get('exc', 'ValueError'), -3, now_op[0])
+                excs_raised.append(dict(exc_info(e), opi=now_op[0]))
                 raise e
             rec[7] = round(S.now - S.t0, 6)
             n_here = sum(1 for c in calls if c[1] == 'task' and c[3] == tok and c[7] is not None)
